@@ -100,6 +100,158 @@ Lemma step_u rn piece : 0 <= rn < 2147483648 -> utf8_ext rn = piece ->
 Proof.
   intros Hr Hp. apply (step_esc (117 :: 123 :: digits false 16 rn ++ [125])). intros rest.
   cbn [app unescape1 Z.eqb Pos.eqb orb]. rewrite <- app_assoc. cbn [app].
-  unfold digits. rewrite <- digits_go_acc. rewrite read_hex_digits_go by (try lia; split; [lia|apply fuel_enough; lia]).
+  unfold digits. rewrite <- digits_go_acc. rewrite read_hex_digits_go; [ | split; [lia|apply fuel_enough; lia] | lia ].
   cbn [read_hex_braced Z.eqb Pos.eqb]. rewrite Hp. reflexivity.
 Qed.
+
+Section Round.
+Variable is_print : Z -> bool.
+Hypothesis print_lf : is_print 10 = false.
+Hypothesis print_cr : is_print 13 = false.
+
+Definition good (esc piece : list Z) : Prop := exists k, (1 <= k <= length esc)%nat /\ Estep k esc piece.
+
+Lemma esc_ascii rn : 0 <= rn < 128 -> good (escape_rune is_print rn [rn]) [rn].
+Proof.
+  intros Hr. unfold escape_rune.
+  destruct (Z.eqb_spec rn 34) as [->|N34]; [exists 1%nat; split; [cbn; lia|apply step_simple; cbn; tauto]|].
+  destruct (Z.eqb_spec rn 92) as [->|N92]; [exists 1%nat; split; [cbn; lia|apply step_simple; cbn; tauto]|].
+  cbn [orb]. destruct (is_print rn) eqn:IP.
+  { exists 1%nat. split; [cbn; lia|]. apply step_raw1; try assumption; intros ->; congruence. }
+  destruct (Z.eqb_spec rn 7) as [->|]; [exists 1%nat; split; [cbn; lia|apply step_simple; cbn; tauto]|].
+  destruct (Z.eqb_spec rn 8) as [->|]; [exists 1%nat; split; [cbn; lia|apply step_simple; cbn; tauto]|].
+  destruct (Z.eqb_spec rn 12) as [->|]; [exists 1%nat; split; [cbn; lia|apply step_simple; cbn; tauto]|].
+  destruct (Z.eqb_spec rn 10) as [->|]; [exists 1%nat; split; [cbn; lia|apply step_simple; cbn; tauto]|].
+  destruct (Z.eqb_spec rn 13) as [->|]; [exists 1%nat; split; [cbn; lia|apply step_simple; cbn; tauto]|].
+  destruct (Z.eqb_spec rn 9) as [->|]; [exists 1%nat; split; [cbn; lia|apply step_simple; cbn; tauto]|].
+  destruct (Z.eqb_spec rn 11) as [->|]; [exists 1%nat; split; [cbn; lia|apply step_simple; cbn; tauto]|].
+  destruct ((rn <? 32) || (rn =? 127)).
+  { exists 1%nat. split; [cbn; lia|]. apply step_x. lia. }
+  exists 1%nat. split; [cbn; lia|]. apply step_u; [lia|].
+  unfold utf8_ext. destruct (Z.ltb_spec rn 128); [reflexivity|lia].
+Qed.
+
+Lemma esc_multi rn raw : 128 <= rn < 2147483648 -> Forall (fun b => 128 <= b) raw -> raw <> [] -> utf8_ext rn = raw ->
+  good (escape_rune is_print rn raw) raw.
+Proof.
+  intros Hr Hraw Hne Hu. unfold escape_rune.
+  destruct (Z.eqb_spec rn 34); [lia|]. destruct (Z.eqb_spec rn 92); [lia|]. cbn [orb].
+  destruct (is_print rn).
+  { exists (length raw). split; [destruct raw; [congruence|cbn; lia]|apply step_rawn; exact Hraw]. }
+  destruct (Z.eqb_spec rn 7); [lia|]. destruct (Z.eqb_spec rn 8); [lia|]. destruct (Z.eqb_spec rn 12); [lia|].
+  destruct (Z.eqb_spec rn 10); [lia|]. destruct (Z.eqb_spec rn 13); [lia|]. destruct (Z.eqb_spec rn 9); [lia|].
+  destruct (Z.eqb_spec rn 11); [lia|].
+  destruct (Z.ltb_spec rn 32); [lia|]. destruct (Z.eqb_spec rn 127); [lia|]. cbn [orb].
+  exists 1%nat. split; [cbn; lia|]. apply step_u; [lia|exact Hu].
+Qed.
+
+Ltac Zify.zify_post_hook ::= Z.div_mod_to_equations.
+
+(* one step of quote_go: the first rune's bytes [piece] are replaced by [esc], which reads back as [piece] *)
+Lemma quote_step b0 r f : bytes_ok (b0 :: r) ->
+  exists esc piece rest', b0 :: r = piece ++ rest' /\ (0 < length piece)%nat /\
+    quote_go is_print (S f) (b0 :: r) = esc ++ quote_go is_print f rest' /\ good esc piece.
+Proof.
+  intros Hok. inversion Hok as [|? ? Hb0 Hr]; subst.
+  assert (INV : 128 <= b0 -> decode_rune (b0 :: r) = (65533, 1%nat) ->
+          exists esc piece rest', b0 :: r = piece ++ rest' /\ (0 < length piece)%nat /\
+            quote_go is_print (S f) (b0 :: r) = esc ++ quote_go is_print f rest' /\ good esc piece).
+  { intros H128 E. cbn [quote_go]. rewrite E. cbn [Nat.eqb Z.eqb Pos.eqb andb].
+    destruct (Z.leb_spec 128 b0); [|lia].
+    exists [92; 120; hexdigit (b0 / 16); hexdigit (b0 mod 16)], [b0], r.
+    split; [reflexivity|]. split; [cbn; lia|]. split; [reflexivity|].
+    exists 1%nat. split; [cbn; lia|apply step_x; lia]. }
+  assert (VAL : forall rn w, decode_rune (b0 :: r) = (rn, w) -> (0 < w)%nat -> (w <= length (b0 :: r))%nat ->
+          (w = 1%nat -> rn = 65533 -> b0 < 128) ->
+          good (escape_rune is_print rn (firstn w (b0 :: r))) (firstn w (b0 :: r)) ->
+          exists esc piece rest', b0 :: r = piece ++ rest' /\ (0 < length piece)%nat /\
+            quote_go is_print (S f) (b0 :: r) = esc ++ quote_go is_print f rest' /\ good esc piece).
+  { intros rn w E Hw Hwl Hne G. cbn [quote_go]. rewrite E.
+    assert (T : Nat.eqb w 1 && (rn =? 65533) && (128 <=? b0) = false).
+    { destruct (Nat.eqb_spec w 1); [|reflexivity]. destruct (Z.eqb_spec rn 65533); [|reflexivity].
+      destruct (Z.leb_spec 128 b0); [|reflexivity]. specialize (Hne e e0). lia. }
+    rewrite T.
+    exists (escape_rune is_print rn (firstn w (b0 :: r))), (firstn w (b0 :: r)), (skipn w (b0 :: r)).
+    split; [symmetry; apply firstn_skipn|]. split; [rewrite firstn_length; lia|]. split; [reflexivity|exact G]. }
+  unfold decode_rune in INV, VAL.
+  destruct (Z.ltb_spec b0 128).
+  { (* ASCII *) apply (VAL b0 1%nat eq_refl); [lia|cbn; lia|lia|]. cbn [firstn]. apply esc_ascii. lia. }
+  destruct ((194 <=? b0) && (b0 <=? 223)) eqn:C2.
+  { apply andb_prop in C2. destruct C2 as [A1 A2]. apply Z.leb_le in A1, A2.
+    destruct r as [|b1 r1]; [apply INV; [lia|reflexivity]|].
+    inversion Hr as [|? ? Hb1 Hr1]; subst. unfold cont in *.
+    destruct ((128 <=? b1) && (b1 <=? 191)) eqn:C; [|apply INV; [lia|reflexivity]].
+    apply andb_prop in C. destruct C as [B1 B2]. apply Z.leb_le in B1, B2.
+    apply (VAL _ 2%nat eq_refl); [lia|cbn; lia|lia|]. cbn [firstn].
+    apply esc_multi; [lia|repeat constructor; lia|discriminate|].
+    unfold utf8_ext. set (rn := (b0 - 192) * 64 + (b1 - 128)).
+    destruct (Z.ltb_spec rn 128); [subst rn; lia|]. destruct (Z.ltb_spec rn 2048); [|subst rn; lia].
+    subst rn. f_equal; [lia|f_equal; lia]. }
+  destruct ((224 <=? b0) && (b0 <=? 239)) eqn:C3.
+  { apply andb_prop in C3. destruct C3 as [A1 A2]. apply Z.leb_le in A1, A2.
+    destruct r as [|b1 [|b2 r2]]; try (apply INV; [lia|reflexivity]).
+    inversion Hr as [|? ? Hb1 Hr1]; subst. inversion Hr1 as [|? ? Hb2 Hr2]; subst. unfold cont in *.
+    match type of INV with context [if ?c then (_, 3%nat) else _] => destruct c eqn:C end; [|apply INV; [lia|reflexivity]].
+    apply andb_prop in C. destruct C as [C C2']. apply andb_prop in C. destruct C as [B1 B2].
+    apply andb_prop in C2'. destruct C2' as [D1 D2].
+    apply Z.leb_le in B1, B2, D1, D2.
+    assert (LO : (if b0 =? 224 then 160 else 128) <= b1) by exact B1.
+    assert (HI : b1 <= (if b0 =? 237 then 159 else 191)) by exact B2.
+    assert (128 <= b1 <= 191) by (destruct (b0 =? 224), (b0 =? 237); lia).
+    apply (VAL _ 3%nat eq_refl); [lia|cbn; lia|lia|]. cbn [firstn].
+    set (rn := (b0 - 224) * 4096 + (b1 - 128) * 64 + (b2 - 128)).
+    assert (2048 <= rn < 65536).
+    { subst rn. destruct (Z.eqb_spec b0 224); lia. }
+    apply esc_multi; [lia|repeat constructor; lia|discriminate|].
+    unfold utf8_ext.
+    destruct (Z.ltb_spec rn 128); [lia|]. destruct (Z.ltb_spec rn 2048); [lia|]. destruct (Z.ltb_spec rn 65536); [|lia].
+    subst rn. f_equal; [lia|f_equal; [lia|f_equal; lia]]. }
+  destruct ((240 <=? b0) && (b0 <=? 244)) eqn:C4; [|apply INV; [lia|reflexivity]].
+  apply andb_prop in C4. destruct C4 as [A1 A2]. apply Z.leb_le in A1, A2.
+  destruct r as [|b1 [|b2 [|b3 r3]]]; try (apply INV; [lia|reflexivity]).
+  inversion Hr as [|? ? Hb1 Hr1]; subst. inversion Hr1 as [|? ? Hb2 Hr2]; subst. inversion Hr2 as [|? ? Hb3 Hr3]; subst.
+  unfold cont in *.
+  match type of INV with context [if ?c then (_, 4%nat) else _] => destruct c eqn:C end; [|apply INV; [lia|reflexivity]].
+  apply andb_prop in C. destruct C as [C E3]. apply andb_prop in C. destruct C as [C E2]. apply andb_prop in C. destruct C as [B1 B2].
+  apply andb_prop in E2. destruct E2 as [D1 D2]. apply andb_prop in E3. destruct E3 as [F1 F2].
+  apply Z.leb_le in B1, B2, D1, D2, F1, F2.
+  assert (LO : (if b0 =? 240 then 144 else 128) <= b1) by exact B1.
+  assert (HI : b1 <= (if b0 =? 244 then 143 else 191)) by exact B2.
+  assert (128 <= b1 <= 191) by (destruct (b0 =? 240), (b0 =? 244); lia).
+  apply (VAL _ 4%nat eq_refl); [lia|cbn; lia|lia|]. cbn [firstn].
+  set (rn := (b0 - 240) * 262144 + (b1 - 128) * 4096 + (b2 - 128) * 64 + (b3 - 128)).
+  assert (65536 <= rn < 2097152).
+  { subst rn. destruct (Z.eqb_spec b0 240), (Z.eqb_spec b0 244); lia. }
+  apply esc_multi; [lia|repeat constructor; lia|discriminate|].
+  unfold utf8_ext.
+  destruct (Z.ltb_spec rn 128); [lia|]. destruct (Z.ltb_spec rn 2048); [lia|]. destruct (Z.ltb_spec rn 65536); [lia|].
+  destruct (Z.ltb_spec rn 2097152); [|lia].
+  subst rn. f_equal; [lia|f_equal; [lia|f_equal; [lia|f_equal; lia]]].
+Qed.
+
+Lemma quote_go_round : forall n s acc fuel, (length s <= n)%nat -> bytes_ok s ->
+  (length (quote_go is_print n s) + 1 <= fuel)%nat ->
+  unescape_go fuel (quote_go is_print n s ++ [34]) acc = Some (acc ++ s).
+Proof.
+  induction n as [|n IH]; intros s acc fuel Hl Hok Hf.
+  - destruct s; [|cbn in Hl; lia]. cbn [quote_go app] in *. destruct fuel; [lia|]. cbn. now rewrite app_nil_r.
+  - destruct s as [|b0 r].
+    { cbn [quote_go app] in *. destruct fuel; [lia|]. cbn. now rewrite app_nil_r. }
+    destruct (quote_step b0 r n Hok) as (esc & piece & rest' & Es & Hp & Eq & (k & Hk & HE)).
+    rewrite Eq in *. rewrite app_length in Hf.
+    replace fuel with (k + (fuel - k))%nat by lia.
+    rewrite <- app_assoc, HE.
+    assert (Hok' : bytes_ok rest').
+    { unfold bytes_ok in *. rewrite Es in Hok. apply Forall_app in Hok. tauto. }
+    assert (Hl' : (length rest' <= n)%nat).
+    { apply (f_equal (@length Z)) in Es. rewrite app_length in Es. cbn [length] in *. lia. }
+    rewrite IH by (auto; lia). rewrite <- app_assoc, <- Es. reflexivity.
+Qed.
+
+(* load('return ' .. string.format('%q', s))() == s for every byte string *)
+Theorem quote_load_string : forall s, bytes_ok s -> lua_string_literal (quote is_print s) = Some s.
+Proof.
+  intros s Hok. unfold quote, lua_string_literal. cbn [Z.eqb Pos.eqb].
+  rewrite quote_go_round; [reflexivity|lia|exact Hok|]. rewrite app_length. cbn [length]. lia.
+Qed.
+End Round.
